@@ -66,7 +66,12 @@ def trxcon_records(ctx, n_ind, n_req):
         while d["ver"] != 0:
             d = D.rand_rx(rng)
         legacy = rng.random() < 0.6          # what the toolkit does towards L1
-        raw = D.mk_rx(d).gen_msg(legacy)
+        try:
+            raw = D.mk_rx(d).gen_msg(legacy)
+        except Exception as e:      # a valid message must encode (also reported by the enc records)
+            ctx.violation("C04/C04.enc.refused/rx-v0", "gen_msg() refused a valid version-0 Rx message (%s: %s)" % (type(e).__name__, e),
+                          dict(message={k: (v if k != "burst" else len(v["bits"])) for k, v in d.items()}))
+            continue
         r = t.data(bytes(raw))
         if r is None:
             ctx.violation("C04/memory/trxcon-data-rx", "trx_if.c died on a valid version-0 datagram (rc=%s)" % (t.crashed[0],),
